@@ -886,7 +886,26 @@ func selftestDeterminism(id string) int {
 	}
 	dir := filepath.Join(verifDir, ".build", spec.ID)
 	os.MkdirAll(filepath.Join(dir, "scratch"), 0o755)
-	bin, _ := build(spec, dir)
+	parts := append([]Part{{Pkg: spec.Pkg, Scenario: spec.Scenario}}, spec.More...)
+	rc := 0
+	for i, part := range parts {
+		pdir := dir
+		if i > 0 {
+			pdir = filepath.Join(dir, fmt.Sprintf("part%d", i))
+		}
+		bin, _ := buildPkg(spec, part.Pkg, pdir)
+		fmt.Printf("part %s %s\n", part.Pkg, part.Scenario)
+		if r := selftestPart(spec, part, bin, dir); r != 0 {
+			rc = r
+		}
+	}
+	if rc == 0 {
+		fmt.Println("deterministic")
+	}
+	return rc
+}
+
+func selftestPart(spec *PropSpec, part Part, bin string, dir string) int {
 	n := 30
 	if v := os.Getenv("VERIF_RUNS"); v != "" {
 		n, _ = strconv.Atoi(v)
@@ -903,8 +922,8 @@ func selftestDeterminism(id string) int {
 		go func(procs string, k int) {
 			defer wg.Done()
 			cmd := exec.Command(bin, "-test.run", "^TestVerif$", "-test.timeout", "0")
-			cmd.Dir = filepath.Join(repoDir, spec.Pkg)
-			cmd.Env = append(os.Environ(), "VERIF_MODE=search", "VERIF_SCENARIO="+spec.Scenario, "VERIF_PROPERTY="+spec.ID, "VERIF_TIER=quick",
+			cmd.Dir = filepath.Join(repoDir, part.Pkg)
+			cmd.Env = append(os.Environ(), "VERIF_MODE=search", "VERIF_SCENARIO="+part.Scenario, "VERIF_PROPERTY="+spec.ID, "VERIF_TIER=quick",
 				"VERIF_SEED=7", "VERIF_FROM=0", "VERIF_TO="+strconv.Itoa(n), "VERIF_MAX_VIOL=1000000", "VERIF_SHRINK_S=0",
 				"VERIF_SCRATCH="+filepath.Join(dir, "scratch"), "GOMAXPROCS="+procs, "VERIF_DIR="+verifDir, "VERIF_KNOWN=/nonexistent")
 			for k, v := range spec.Env {
@@ -934,7 +953,6 @@ func selftestDeterminism(id string) int {
 		fmt.Println("NONDETERMINISTIC")
 		return 2
 	}
-	fmt.Println("deterministic")
 	return 0
 }
 
